@@ -855,13 +855,19 @@ def run(cfg):
 
 
 SELFTEST = [
+    dict(id='year-narrowed-without-gate', file='src/ace_time/LocalDateTime.h',
+         find='      int8_t yearTiny = LocalDate::isYearValid(year)\n          ? year - LocalDate::kEpochYear\n          : LocalDate::kInvalidYearTiny;\n      return forTinyComponents(yearTiny, month, day, hour, minute, second);',
+         replace='      return forTinyComponents(year - LocalDate::kEpochYear, month, day, hour, minute, second);', rule='R9', construct='LocalDateTime'),
+    dict(id='year-gate-as-if-statement-silent', file='src/ace_time/LocalDate.h',
+         find='      int8_t yearTiny = isYearValid(year)\n          ? year - kEpochYear : kInvalidYearTiny;',
+         replace='      int8_t yearTiny = kInvalidYearTiny;\n      if (isYearValid(year)) yearTiny = year - kEpochYear;', expect='silent'),
     dict(id='seconds-of-day-in-signed-arithmetic', file='src/ace_time/LocalDateTime.h', regex=True,
          find=r'acetime_t seconds = \(acetime_t\) \(\(uint32_t\) epochSeconds\n\s+- \(uint32_t\) 86400 \* \(uint32_t\) days\);',
          replace='acetime_t seconds = epochSeconds - 86400 * days;', rule='R8', construct='LocalDateTime::forEpochSeconds'),
     dict(id='offset-seconds-factor-too-large', file='src/ace_time/TimeOffset.h', find='return (int32_t) 60 * toMinutes();', replace='return (int32_t) 70000 * toMinutes();',
          rule='R8', construct='TimeOffset::toSeconds'),
     dict(id='time-period-seconds-spelling-silent', file='src/ace_time/TimePeriod.h', regex=True,
-         find=r'(int32_t seconds = \(\(mHour \* \(int16_t\) 60\) \+ mMinute\)\n\s+\* \(int32_t\) 60 \+ mSecond;)', replace=r'int32_t seconds = (int32_t) mHour * 3600 + (int32_t) mMinute * 60 + mSecond;',
+         find=r'int32_t seconds = \(\(mHour \* \(int16_t\) 60\) \+ mMinute\) \* \(int32_t\) 60\n\s+\+ mSecond;', replace=r'int32_t seconds = (int32_t) mHour * 3600 + (int32_t) mMinute * 60 + mSecond;',
          expect='silent'),
     dict(id='estimator-sees-empty-transitions', file='tools/zonedb/zone_specifier.py',
          find='        for match in matches:\n            transitions_for_match = self._find_transitions_for_match(match)\n            self.transitions.extend(transitions_for_match)\n',
